@@ -125,7 +125,7 @@ def monSample (m : MSt) (kind id : String) (rate : Int) (obs : String) : MSt × 
       | none => []
     let dom := inDomain kind rate || rate ≤ 1
     let f5 := if !dom then [] else
-      match same.find? (fun s => (inDomain kind s.rate || s.rate ≤ 1) &&
+      match same.find? (fun s => s.rate != rate && (inDomain kind s.rate || s.rate ≤ 1) &&
           ((s.rate ≤ rate && keep && !s.keep) || (rate ≤ s.rate && s.keep && !keep))) with
       | some s =>
         let (lo, hi) := if s.rate ≤ rate then (s.rate, rate) else (rate, s.rate)
